@@ -109,6 +109,7 @@ func objReplayDoc(data []byte, ops []objOp) map[string]interface{} {
 
 func checkObj(kind string, data []byte, ops []objOp) {
 	doc := objReplayDoc(data, ops)
+	beat("a history of calls on one btc.Block object", doc)
 	line := "obj " + vlib.Hex(data)
 	shape := ""
 	for _, op := range ops {
@@ -321,8 +322,10 @@ func manyPackBlocks(g *vlib.Rng) {
 		want := uint(3*(hdr+base) + hdr + total)
 		doc := map[string]interface{}{"op": "manypack", "note": "re-run stream 9 with the recorded seed", "transactions": len(txs), "raw_len": len(raw)}
 		r.Eval("block-many-packs", "mp"+string(raw[:80]))
+		beat(fmt.Sprintf("repeated BuildTxList on a block of %d transactions (%d bytes)", len(txs), len(raw)), rep("block", raw))
 		first := ""
 		for k := 0; k < runs; k++ {
+			beat(fmt.Sprintf("repeated BuildTxList on a block of %d transactions (%d bytes)", len(txs), len(raw)), rep("block", raw))
 			ob := observeBlock(raw, true)
 			r.Hit("block-many-packs-run:" + ob.err)
 			if ob.panicked != "" {
